@@ -243,6 +243,17 @@ func (d *Decls) ArrayOf(idx, elem string) string {
 	return n
 }
 
+// ArrSliceOf: the array-backed slice model (contents array + length), used where a package
+// stores into slice elements through aliases-free reference slices (skip list).
+func (d *Decls) ArrSliceOf(elem string) string {
+	n := "A_" + sanitize(elem)
+	if d.sorts[n] == nil {
+		d.sorts[n] = &SortInfo{Kind: "arrslice", Elem: elem}
+		d.decl("sort:"+n, fmt.Sprintf("(declare-datatypes ((%[1]s 0)) (((mk_%[1]s (arr_%[1]s (Array Int %[2]s)) (len_%[1]s Int)))))", n, elem))
+	}
+	return n
+}
+
 // ListOf instantiates the cons-list theory for an element sort.
 func (d *Decls) ListOf(elem string) string {
 	n := "L_" + sanitize(elem)
